@@ -172,11 +172,29 @@ Definition rust_keywords : list str :=
     s [98;111;120]; s [100;111]; s [102;105;110;97;108]; s [109;97;99;114;111]; s [111;118;101;114;114;105;100;101]; s [112;114;105;118]; s [116;114;121];
     s [116;121;112;101;111;102]; s [117;110;115;105;122;101;100]; s [118;105;114;116;117;97;108]; s [121;105;101;108;100]; s [103;101;110] ].
 
-Inductive gclass := GReserved | GDupType | GDupFn | GFixedName | GKeywordFn.
+Inductive gclass := GReserved | GDupType | GDupFn | GFixedName | GKeywordFn | GBindingVariant.
+
+(* a parameter (method input, method output, error parameter) whose type is directly an enum that
+   has a member named like the parameter: rustc's deny-by-default lint bindings_with_variant_name
+   (E0170) rejects the generated function signature *)
+Definition enum_members_of (i : idl) (t : vtype) : list str :=
+  match t with
+  | TEnum es => es
+  | TName n => flat_map (fun m => match m with MTypeE n' _ es => if beq_str n n' then es else [] | _ => [] end) (i_members i)
+  | _ => []
+  end.
+Definition binding_clash (i : idl) (fs : list (str * vtype)) : bool :=
+  existsb (fun ft => existsb (beq_str (fst ft)) (enum_members_of i (snd ft))) fs.
+Definition has_binding_clash (i : idl) : bool :=
+  existsb (fun m => match m with
+                    | MMethod _ _ a b => binding_clash i a || binding_clash i b
+                    | MError _ _ fs => binding_clash i fs
+                    | _ => false end) (i_members i).
 
 Definition known_classes (i : idl) : list gclass :=
   (if generator_panics i then [GReserved] else []) ++
   (if has_dup (emitted_type_names i) then [GDupType] else []) ++
   (if has_dup (emitted_fn_names i) then [GDupFn] else []) ++
   (if existsb (fun t => existsb (beq_str (fst t)) fixed_names) (typedefs_of i) then [GFixedName] else []) ++
-  (if existsb (fun m => existsb (beq_str (snake (fst (fst m)))) rust_keywords) (methods_of i) then [GKeywordFn] else []).
+  (if existsb (fun m => existsb (beq_str (snake (fst (fst m)))) rust_keywords) (methods_of i) then [GKeywordFn] else []) ++
+  (if has_binding_clash i then [GBindingVariant] else []).
